@@ -706,6 +706,34 @@ def correspond(ctx):
 # ---------------------------------------------------------------------------
 # oracle on the real code only
 
+def foreign_refs(copy, orig):
+    """ Object-graph form of "a restored copy is bound to ITSELF" (the model's `Binding.wellBound`): no scheduled function of the
+        copy's plan may hold — as the receiver of a bound method, as an argument of a functools.partial, or in a closure cell — the
+        original sim, its people, its loop or one of its modules.  Returns [(function label, which original object)]. """
+    import functools
+    if copy is orig:
+        return []
+    og = {id(orig): 'sim', id(orig.people): 'people', id(orig.loop): 'loop'}
+    for m in orig.modules:
+        og[id(m)] = f'module {m.name}'
+    bad = []; seen = set()
+    for label, f in zip(copy.loop.plan.func_label, copy.loop.plan.func):
+        if label in seen: continue
+        seen.add(label)
+        refs = [getattr(f, '__self__', None)]
+        g = f
+        if isinstance(f, functools.partial):
+            refs += list(f.args) + list((f.keywords or {}).values()); g = f.func
+        g = getattr(g, '__func__', g)
+        for cell in (getattr(g, '__closure__', None) or ()):
+            try: refs.append(cell.cell_contents)
+            except ValueError: pass
+        for r in refs:
+            if id(r) in og:
+                bad.append((label, og[id(r)]))
+    return bad
+
+
 def oracle_pause(cfg, k, mode, twin, tmpdir, via='lstep', until=None):
     """ Pause after k functions (or, with `until`, by sim.run(until=...)), restore by `mode`, (twin: continue original as well), run
         to the end; compare with reference """
@@ -726,6 +754,10 @@ def oracle_pause(cfg, k, mode, twin, tmpdir, via='lstep', until=None):
         pre = control(sim)
         if control(copy) != pre:
             fails.append((dict(oracle='resume', what='control-state-changed', mode=mode), f'{mode} after {k} functions changed the control state {pre} -> {control(copy)}'))
+        bad = foreign_refs(copy, sim)
+        if bad:
+            fails.append((dict(oracle='resume', what='copy-calls-original', mode=mode),
+                          f'{mode} after {k} functions: {len(bad)} scheduled function(s) of the copy still hold objects of the ORIGINAL sim, e.g. {bad[0][0]} -> {bad[0][1]}'))
         try:
             copy.run()
             if twin and copy is not sim:
@@ -945,6 +977,9 @@ def oracle_zoo(cfg, plan, tmpdir):
         pre = control(sim)
         if control(copy) != pre:
             fails.append((sig('control-state-changed'), f'{mode} after {k} functions ({kind}) changed the control state {pre} -> {control(copy)}'))
+        bad = foreign_refs(copy, sim)
+        if bad:
+            fails.append((sig('copy-calls-original'), f'{mode} after {k} functions ({kind}): {len(bad)} scheduled function(s) of the copy still hold objects of the ORIGINAL sim, e.g. {bad[0][0]} -> {bad[0][1]}'))
         gstate = np.random.get_state() if plan.get('shield') else None
         # --- the copy: one function at a time to the end
         trace = {}
